@@ -4,7 +4,7 @@ from simkit.gen_hier import hier_config, Builder, ScriptGen
 from simkit.model import scan
 from simkit.oracles.elab import Elab, partition_diff
 from simkit.oracles.links import check_links
-from simkit.oracles.mirror import check_mirror
+from simkit.oracles.mirror import check_mirror, check_wire_endpoints
 from simkit.violation import Violation
 from checks.c08 import STUB
 
@@ -69,6 +69,7 @@ class C09(Prop):
         cfg["child_props"] = True
         cfg["extra_unreachable"] = False if rng.random() < 0.5 else cfg["extra_unreachable"]
         cfg["flat_counter_start"] = rng.choice([0, 0, 3])
+        cfg["late_pins"] = rng.choice([0, 0, 0.4])
         return cfg
 
     def make_gen(self, w, rng, cfg):
@@ -129,6 +130,7 @@ class C09(Prop):
         objs, _ = scan(w.roots() + [n])
         check_links(objs, disc, w.name_of, P="C09.wellformed")
         check_mirror(objs, disc, w.name_of, P="C09.wellformed")
+        check_wire_endpoints(n, disc, w.name_of, P="C09.wellformed")
 
 
 PROP = C09
